@@ -529,7 +529,8 @@ def schur_ok(expr, Mt, sname, left, right, extra):
   if not (expr.k == 'bin' and expr.a[0] == '-' and match.is_ext_call(expr.a[1], 'eye')):
     return False
   n = expr.a[1].a[1][0]
-  okn = sym.show(n).endswith('layers') if extra == 0 else (n.k == 'bin' and n.a[0] == '+' and sym.show(n.a[1]).endswith('layers') and n.a[2] == sym.const(1))
+  is_layers = lambda t: t.k == 'attr' and t.a[1] == 'layers'
+  okn = is_layers(n) if extra == 0 else (n.k == 'bin' and n.a[0] == '+' and {True} == {is_layers(x) or x == sym.const(1) for x in n.a[1:3]} and any(is_layers(x) for x in n.a[1:3]))
   p = expr.a[2]
   if not (p.k == 'bin' and p.a[0] == '@'):
     return False
